@@ -90,7 +90,7 @@ def run_counts(ctx, cases, kinds, variants, key):
 def correspond(ctx, scale=1):
     rng = ctx.rng
     scale *= 4 if ctx.thorough else 1
-    cases = countlib.seam_cases(rng, 110 * scale) + countlib.shape_cases(rng, 160 * scale) + countlib.exhaustive_small(40) + countlib.top_cases(rng, 3 * scale) + countlib.big_sieve_cases(rng, 1 if scale == 1 else 3)
+    cases = countlib.seam_cases(rng, 110 * scale) + countlib.shape_cases(rng, 160 * scale) + countlib.layer_cases(rng, 40 * scale) + countlib.exhaustive_small(40) + countlib.top_cases(rng, 3 * scale) + countlib.big_sieve_cases(rng, 1 if scale == 1 else 3)
     variants = ("default", "portable") if ctx.thorough else ("default",)
     ev, mm, samples, sigs, dist = run_counts(ctx, cases, [1], variants, "count-primes")
     # segment skeleton: the segments the real Erat sieves vs the geometry model, at every magnitude (cheap: no sieving primes)
@@ -143,18 +143,7 @@ def correspond(ctx, scale=1):
     # sieves vs the model's bucket machine (the one C04_eratbig_buckets_refine / C12_eratbig_*_in_bounds are about): changed bytes
     # per segment, buckets_.size() and the content of every bucket list after the run.  States come from the real
     # Wheel210::addSievingPrime or are arbitrary (any wheel index, any index within one wheel step beyond the segment).
-    eb = []
-    for _ in range(60 * scale):
-        lg = rng.between(4, 13) if rng.chance(4, 5) else rng.between(14, 16)
-        size = 1 << lg
-        trip = []
-        for _k in range(rng.between(1, 6)):
-            pr_ = oracle.next_prime_ge(rng.choice([31, 37, 100, 1000, 5000, 30000, 10 ** 6, 10 ** 8]) + rng.below(400))
-            if (pr_ // 3) // size > 50000:      # keep buckets_ (one list per future segment) at a few ten thousand entries
-                pr_ = oracle.next_prime_ge(31 + rng.below(5000))
-            sp = pr_ // 30
-            trip.append((pr_, rng.below(size + sp * 10 + 10), rng.below(384)))
-        eb.append((lg, rng.between(1, 6), trip, "arbitrary"))
+    eb = countlib.ebig_units(rng, 60 * scale)
     aq = []
     for _ in range(60 * scale):
         lg = rng.between(4, 14); size = 1 << lg
@@ -177,6 +166,37 @@ def correspond(ctx, scale=1):
         sigs.add(("ebig", c[3], len(c[2]) > 1, c[0] > 10))
         if a_.strip() != b_.strip():
             mm.append({"key": "eratbig", "what": "EratBig(sieve 2^%d bytes, %d segments, states (prime, multipleIndex, wheelIndex) %s): implementation %s..., model %s..." % (c[0], c[1], c[2], a_[:160], b_[:160]), "failing_input": None})
+    # EratMedium unit level: the real EratMedium (64 bucket lists, crossOff_7 .. crossOff_31, SievingPrime packing) vs the model's
+    # 64-list machine (C04_eratmedium_buckets_refine / C12_eratmedium_*_in_bounds): changed bytes per segment and every list
+    em_ = []
+    aq = []
+    for _ in range(80 * scale):
+        size = rng.between(16, 4000) if rng.chance(4, 5) else rng.between(1, 15)
+        np_ = rng.between(1, 8)
+        for _k in range(np_):
+            pr_ = oracle.next_prime_ge(rng.choice([7, 11, 13, 31, 100, 1000, 5000, 30000, 10 ** 6]) + rng.below(400))
+            low = 30 * (max(0, pr_ * pr_ - 30 * rng.below(3 * size + 1)) // 30) if rng.chance(2, 3) else 30 * (pr_ * pr_ // 30 + rng.below(10 ** 9))
+            aq.append((len(em_), pr_, low))
+        em_.append([size, rng.between(1, 5), []])
+    rc, o, e = ps.run([kp], input="".join("ASP30 %d %d %d\n" % ((1 << 64) - 1, c[1], c[2]) for c in aq), timeout=300)
+    for c, l in zip(aq, o.splitlines()):
+        s_ = l.split()
+        if len(s_) == 2 and int(s_[0]) < (1 << 23) - 1:
+            em_[c[0]][2].append((c[1], int(s_[0]), int(s_[1])))
+    # plus arbitrary states: any wheel index below 64, any index within one wheel step beyond the segment
+    em_ += countlib.emed_units(rng, 30 * scale)
+    em_ = [c for c in em_ if c[2]]
+    fmt = lambda c: "%d %d %s" % (c[0], c[1], " ".join("%d %d %d" % t for t in c[2]))
+    rc, o, e = ps.run([kp], input="".join("EMED %s\n" % fmt(c) for c in em_), timeout=600)
+    rcm, om, em2 = ps.run([model], input="".join("LEAF emed %s\n" % fmt(c) for c in em_), timeout=900)
+    dist["eratmedium_units"] = len(em_)
+    if len(o.splitlines()) != len(em_) or len(om.splitlines()) != len(em_):
+        mm.append({"key": "eratmedium", "what": "EratMedium unit comparison did not run: %d implementation results, %d model results for %d cases (%s)" % (len(o.splitlines()), len(om.splitlines()), len(em_), (e or em2)[:200]), "failing_input": None})
+    for c, a_, b_ in zip(em_, o.splitlines(), om.splitlines()):
+        ev += 1
+        sigs.add(("emed", len(c[2]) > 1, c[0] < 16, c[1] > 1))
+        if a_.strip() != b_.strip():
+            mm.append({"key": "eratmedium", "what": "EratMedium(sieve %d bytes, %d segments, states (prime, multipleIndex, wheelIndex) %s): implementation %s..., model %s..." % (c[0], c[1], c[2], a_[:160], b_[:160]), "failing_input": None})
     # pre-sieve unit level: PreSieve::preSieve on segments at every magnitude (incl. segmentLow <= 163 and the wrap-around of every
     # table) vs the model over the extracted tables
     pc = [(0, 40), (30, 20), (150, 10), (180, 10), (30 * 5957 - 60, 30), (30 * 6683 - 30, 64)]
